@@ -60,8 +60,24 @@ pub fn read_graphml_string(string: &str, specs: GraphSpecs) -> Result<Graph<Stri
     let mut edges: Vec<Arc<Edge<String, ()>>> = vec![];
     let mut last_element_name: String = "".to_string();
     let mut edge_weight_attr_name = "weight".to_string();
+    let mut expect_weight_text = false;
     loop {
-        match reader.read_event_into(&mut buf) {
+        let event = reader.read_event_into(&mut buf);
+        let is_weight_text = expect_weight_text;
+        expect_weight_text = false;
+        match event {
+            Ok(Event::Text(ref e)) if is_weight_text => {
+                let weight = str::from_utf8(e)
+                    .map_err(|_| get_read_error("an edge weight is not valid UTF-8"))?;
+                if let ("edge", Some(last_edge)) = (last_element_name.as_str(), edges.last_mut()) {
+                    let edge = Arc::make_mut(last_edge);
+                    edge.weight = weight.parse::<f64>().map_err(|_| {
+                        get_read_error(
+                            format!("the edge weight \"{}\" is not a number", weight).as_str(),
+                        )
+                    })?;
+                }
+            }
             Ok(Event::Empty(ref e)) => match e.name().as_ref() {
                 b"graph" => {
                     // an empty graph still declares its directedness
@@ -115,27 +131,8 @@ pub fn read_graphml_string(string: &str, specs: GraphSpecs) -> Result<Graph<Stri
                         if attrs.contains_key("key") {
                             let key = attrs.get("key").unwrap();
                             if key == &edge_weight_attr_name {
-                                let mut buf = Vec::new();
-                                match reader.read_event_into(&mut buf) {
-                                    Ok(Event::Text(e)) => {
-                                        let weight = str::from_utf8(&e).map_err(|_| {
-                                            get_read_error("an edge weight is not valid UTF-8")
-                                        })?;
-                                        match (last_element_name.as_str(), edges.last_mut()) {
-                                            ("edge", Some(last_edge)) => {
-                                                let edge = Arc::make_mut(last_edge);
-                                                edge.weight = weight.parse::<f64>().map_err(|_| {
-                                                    get_read_error(
-                                                        format!("the edge weight \"{}\" is not a number", weight)
-                                                            .as_str(),
-                                                    )
-                                                })?;
-                                            }
-                                            _ => (),
-                                        }
-                                    }
-                                    _ => (),
-                                }
+                                // the weight is the text that directly follows this start tag
+                                expect_weight_text = true;
                             }
                         }
                     }
